@@ -6,6 +6,47 @@ From ChiaV.Gen Require Import StreamTypes.
 From ChiaV.Props Require Import C13.
 Open Scope N_scope.
 
+Check C13_decode_canonical : forall O, prog_len_stable_hyp O -> forall tr t bs v r,
+  decode O tr t bs = Some (v, r) ->
+  wf O tr t v = true /\ exists e, encode t v = Some e /\ bs = e ++ r.
+Print Assumptions C13_decode_canonical.
+Check C13_encode_decode_roundtrip : forall O, prog_len_stable_hyp O -> prog_len_pos_hyp O -> forall tr t v,
+  wf O tr t v = true ->
+  exists e, encode t v = Some e /\ forall r, decode O tr t (e ++ r) = Some (v, r).
+Print Assumptions C13_encode_decode_roundtrip.
+Check C13_from_bytes_reencodes : forall O, prog_len_stable_hyp O -> forall tr t bs v,
+  from_bytes_gen O tr t bs = Some v -> wf O tr t v = true /\ encode t v = Some bs.
+Print Assumptions C13_from_bytes_reencodes.
+Check C13_one_encoding_per_value : forall O, prog_len_stable_hyp O -> forall tr tr' t bs bs' v,
+  from_bytes_gen O tr t bs = Some v -> from_bytes_gen O tr' t bs' = Some v -> bs = bs'.
+Print Assumptions C13_one_encoding_per_value.
+Check C13_to_bytes_from_bytes : forall O, prog_len_stable_hyp O -> prog_len_pos_hyp O -> forall tr t v,
+  wf O tr t v = true -> exists e, encode t v = Some e /\ from_bytes_gen O tr t e = Some v.
+Print Assumptions C13_to_bytes_from_bytes.
+Check C13_hash_is_H_of_encoding : forall O tr (H : bytes -> bytes) t v e,
+  wf O tr t v = true -> has_v2_pos t v = false -> encode t v = Some e -> hash_of H O t v = Some (H e).
+Print Assumptions C13_hash_is_H_of_encoding.
+Check C13_pos_v2_hash_commits_to_quality : forall O tr v,
+  wf_pos O tr v = true -> pos_is_v2 v = true ->
+  exists head pf, enc_pos v = Some (head ++ n2be 4 (nlen pf) ++ pf) /\
+    dig_pos O v = match quality O (head ++ n2be 4 (nlen pf) ++ pf) with
+                  | Some q => DOk (head ++ q)
+                  | None => DPanic
+                  end.
+Print Assumptions C13_pos_v2_hash_commits_to_quality.
+Check C13_untrusted_implies_trusted : forall O, prog_len_trust_hyp O -> forall t bs v r,
+  decode O false t bs = Some (v, r) -> decode O true t bs = Some (v, r).
+Print Assumptions C13_untrusted_implies_trusted.
+Check C13_from_bytes_unchecked_superset : forall O, prog_len_trust_hyp O -> forall t bs v,
+  from_bytes O t bs = Some v -> from_bytes_unchecked O t bs = Some v.
+Print Assumptions C13_from_bytes_unchecked_superset.
+Check C13_vec_too_long_fails : forall a l, 2 ^ 32 <= N.of_nat (length l) -> encode (Vec a) (VList l) = None.
+Print Assumptions C13_vec_too_long_fails.
+Check C13_bytes_too_long_fails : forall b, 2 ^ 32 <= nlen b -> encode Bytes (VBytes b) = None.
+Print Assumptions C13_bytes_too_long_fails.
 Check C13_from_bytes_consumes_all : forall O tr t bs v,
   from_bytes_gen O tr t bs = Some v -> decode O tr t bs = Some (v, []).
 Print Assumptions C13_from_bytes_consumes_all.
+Check C13_hypotheses_satisfiable :
+  prog_len_stable_hyp toy_oracles /\ prog_len_pos_hyp toy_oracles /\ prog_len_trust_hyp toy_oracles.
+Print Assumptions C13_hypotheses_satisfiable.
